@@ -752,6 +752,16 @@ func checkState(rep *verifkit.Report, s *sys, hist []op, o op, err error, pan st
 		return (o.Kind == "deleteConnector" || o.Kind == "deleteProcessor") && a != b && stripVolatile(a) == stripVolatile(b)
 	}
 	if err != nil && recreated(before, after) {
+		// the STORE side of the failed call is judged all the same: the call failed, so the stored keys are unchanged and a
+		// restarted server finds exactly the state before the call (the known shape only concerns what memory lost)
+		if s.storeKeys() != beforeKeys {
+			bad("failed-call-changed-store", fmt.Sprintf("%s returned an error (%v) but the set of stored keys changed: %s -> %s", o, firstLine(err), beforeKeys, s.storeKeys()))
+		}
+		if rel, rerr := s.dumpReloaded(true); rerr != nil {
+			bad("store-not-loadable", fmt.Sprintf("after the failed %s a restarted server cannot load the store: %v", o, rerr))
+		} else if stripVolatile(rel) != stripVolatile(before) {
+			bad("failed-call-changed-store", fmt.Sprintf("%s returned an error (%v) but a restarted server no longer finds the state before the call:\n--- before\n%s\n--- reloaded\n%s", o, firstLine(err), before, rel))
+		}
 		bad("rollback-recreates-entity", fmt.Sprintf("%s failed (%v) and was rolled back by creating the entity anew: creation time / state / last active config / its place in the parent's list are lost in memory while the store keeps the original:\n--- before\n%s\n--- after\n%s", o, firstLine(err), before, after))
 		return false
 	}
